@@ -116,8 +116,8 @@ PLAN = {
     ),
     "C05": dict(
         rule="encode->decode (bytes, CBOR value and UR string variants) of every envelope reachable in the bounded machine; decoded projection identical and re-encoding byte-identical",
-        quick=[CORE_ALL3, DECODE_Q],
-        thorough=[CORE_ALL3, CORE_T, DECODE_Q, DECODE_T, TRACE_WALK_T, DEEP_S_T],
+        quick=[CORE_ALL3, DECODE_Q, REMOVE_Q],
+        thorough=[CORE_ALL3, CORE_T, DECODE_Q, DECODE_T, REMOVE_Q, TRACE_WALK_T, DEEP_S_T],
     ),
     "C07": dict(
         rule="all insertion sequences of the bounded machine; results compared with the order-free (set based) specification term, byte for byte",
